@@ -43,6 +43,16 @@ func main() {
 		}
 		return
 	}
+	if len(os.Args) == 3 && os.Args[1] == "dump-seeded" {
+		e := lib.Init("C16", "translation_validation")
+		for _, c := range randomCases(e, func(string) bool { return false }) {
+			p := filepath.Join(os.Args[2], c.Rel)
+			_ = os.MkdirAll(filepath.Dir(p), 0o755)
+			_ = os.WriteFile(p, []byte(c.Src), 0o644)
+		}
+		_ = os.RemoveAll(e.Scratch)
+		return
+	}
 	if len(os.Args) == 2 && os.Args[1] == "list-corpus" {
 		e := lib.Init("C16", "translation_validation")
 		for _, c := range corpusCases(e) {
